@@ -110,11 +110,11 @@ def boot(program='carbon-cache', conf=None, files=None, standins=(), database='v
   c = dict(conf or {})
   c.setdefault('DATABASE', database)
   c.setdefault('CARBON_METRIC_INTERVAL', 0)
-  c.setdefault('LOG_UPDATES', False)
-  c.setdefault('LOG_CREATES', False)
-  c.setdefault('LOG_CACHE_HITS', False)
-  c.setdefault('LOG_CACHE_QUEUE_SORTS', False)
-  c.setdefault('LOG_LISTENER_CONN_SUCCESS', False)
+  # LOG_UPDATES, LOG_CREATES, LOG_CACHE_HITS, LOG_CACHE_QUEUE_SORTS, LOG_LISTENER_CONN_SUCCESS keep their production
+  # defaults (on): the logging branches are part of what runs in a daemon.  VERIF_QUIET_LOGS=1 switches them off.
+  if os.environ.get('VERIF_QUIET_LOGS') == '1':
+    for k in ('LOG_UPDATES', 'LOG_CREATES', 'LOG_CACHE_HITS', 'LOG_CACHE_QUEUE_SORTS', 'LOG_LISTENER_CONN_SUCCESS'):
+      c.setdefault(k, False)
   c.setdefault('ENABLE_LOGROTATION', False)
   # carbon-aggregator-cache reads section [aggregator-cache]
   secs = [(section, c)]
